@@ -163,6 +163,14 @@ def gen_cases(rng, tier, scale):
     for i, (src, v) in enumerate([("['a']", ['a']), ("[1,'b c']", [1, 'b c']), ("{'k': 1}", {'k': 1}), ('{"k": \'v\'}', {'k': 'v'})]):
         cases.append(rcase(f'q{i}', '{{dump ' + src + '}}', DATA, pre=['probes', 'esc 1'], entry=4, kind='dump', form='expr',
                            dump='dump(' + pj_lit(v) + ';;bti;-)', log=[], hlog=[], tags=['nested-single-quote']))
+    DER = [('{{> p}}', 'dump(x7a7a:m:-:n;k=x7a7a2e79:m:-:n;bti;-)'),
+           ('{{#with (lookup this "o") as |w|}}{{dump w.zz}}{{/with}}', 'dump(x772e7a7a:m:-:n;;bti;-)'),
+           ('{{#with (lookup this "o")}}{{dump zz}}{{/with}}', 'dump(x7a7a:m:-:n;;bti;-)'),
+           ('{{#each (lookup o "k")}}{{dump zz}}{{/each}}', 'dump(x7a7a:m:-:n;;bti;-)dump(x7a7a:m:-:n;;bti;-)'),
+           ('{{#each o.k as |e i|}}{{dump i.nokey}}{{/each}}', 'dump(x692e6e6f6b6579:m:-:n;;bti;-)dump(x692e6e6f6b6579:m:-:n;;bti;-)'),
+           ('{{#each [{"a":1}] as |e|}}{{dump e.zz ../zz}}{{/each}}', None)]
+    for i, (tpl, exp) in enumerate(DER):
+        cases.append(rcase(f'der{i}', tpl, DATA, pre=['probes', 'esc 1'], partials={'p': '{{dump zz k=zz.y}}'}, entry=0, kind='exact', exp=exp, tags=['missing-in-derived-scope']))
     for i, src in enumerate(NOT_JSON):
         for j, tpl in enumerate(['{{dump %s}}', '{{dump 1 k=%s}}', '{{#dump %s}}b{{/dump}}', '{{id (dump %s)}}']):
             cases.append(rcase(f'nj{i}_{j}', tpl % src, DATA, pre=['probes', 'esc 1'], entry=4, kind='notjson', form='expr', tags=['not-json-number']))
@@ -173,6 +181,10 @@ def oracle(c, io, mo):
     if c['kind'] == 'notjson':
         ok = r['kind'] == 'err' and r['reason'] == 'TemplateError' and str(r.get('payload', '')).startswith('invalid_param')
         return None if ok else f'a number literal that is not JSON must be rejected (InvalidParam), got {r.get("out", r.get("reason"))!r} {r.get("payload", "")}'
+    if c['kind'] == 'exact':
+        if c['exp'] is None:
+            return None if (r['kind'] == 'ok' and ':v:' not in r['out']) else f'absent paths must be flagged missing, got {r.get("out", r.get("reason"))!r}'
+        return None if r.get('out') == c['exp'] else f'expected {c["exp"]!r}, got {r.get("out", r.get("reason"))!r}'
     if r['kind'] != 'ok':
         return f'expected {c["dump"]!r}, got {r.get("reason", r["kind"])} {r.get("payload", "")}'
     exp_out = c['dump']
